@@ -2435,6 +2435,11 @@ parse_identifier:
                           yylval.ihe = ihe;
                           return L_DEFINED_NAME;
                         }
+                      if (function_flag) /* "(: name" with a name nobody has defined: an old style function like the others */
+                        {
+                          function_flag = 0;
+                          return old_func ();
+                        }
                       yylval.string = scratch_copy (yytext);
                       return L_IDENTIFIER;
                     }
@@ -2580,6 +2585,7 @@ void start_new_file (int fd, const char* pre_text) {
   yyin_desc = fd; /* lexer input file descriptor */
   lex_fatal = 0;
   last_function_context = -1;
+  function_flag = 0;
   refused_function_contexts = 0;
   current_function_context = 0;
   cur_lbuf = &head_lbuf;
